@@ -138,6 +138,15 @@ def run_for(pid, root, rep, seed=0, jobs=16):
     if hasattr(mod, 'variants'):
         variants += list(mod.variants(root))
     base_keys = {o.key() for o in rep.obs if not o.ok}
+    # generic behaviour-preserving variants: rename all locals of some of the functions this check reports on (choice driven by the seed)
+    import random as _random
+    fns = sorted({(o.module, part.strip()) for o in rep.obs for part in o.function.replace(' / ', '.').split('.')
+                  if o.module.endswith('.py') and part.strip().isidentifier() and os.path.exists(os.path.join(root, o.module))})
+    _random.Random(seed).shuffle(fns)
+    for (module, fn) in fns[:6]:
+        variants.append(rename_locals(module, fn))
+    for (module, fn) in fns[:4]:
+        variants.append(insert_noise(module, fn))
     if not variants:
         rep.selftest = {'variants': 0}
         return
@@ -222,3 +231,42 @@ def _rename_locals(funcname, suffix, text):
 def rename_locals(file, funcname, suffix='_r'):
     """neutral Variant: all locals of `funcname` renamed"""
     return Variant('neutral: locals of %s renamed' % funcname, 'neutral', file, transform=_functools.partial(_rename_locals, funcname, suffix))
+
+
+def _insert_noise(funcname, text):
+    """insert `pass` and a print call at the start of every block of function `funcname` (behaviour-preserving for all results)"""
+    try:
+        tree = _ast.parse(text)
+    except SyntaxError:
+        return None
+    target = None
+    for n in _ast.walk(tree):
+        if isinstance(n, (_ast.FunctionDef, _ast.AsyncFunctionDef)) and n.name == funcname:
+            target = n
+            break
+    if target is None:
+        return None
+    lines = text.split('\n')
+    inserts = []
+    for n in _ast.walk(target):
+        for field in ('body', 'orelse'):
+            blk = getattr(n, field, None)
+            if isinstance(blk, list) and blk and isinstance(blk[0], _ast.stmt):
+                first = blk[0]
+                if n is target and isinstance(first, _ast.Expr) and isinstance(first.value, _ast.Constant) and isinstance(first.value.value, str):
+                    if len(blk) < 2:
+                        continue
+                    first = blk[1]
+                if field == 'orelse' and isinstance(n, _ast.If) and len(blk) == 1 and isinstance(blk[0], _ast.If) and blk[0].col_offset == n.col_offset:
+                    continue      # elif chain
+                if any(d.lineno == first.lineno for d in getattr(first, 'decorator_list', [])):
+                    continue
+                ln = first.lineno - len(getattr(first, 'decorator_list', []))
+                inserts.append((min([first.lineno] + [d.lineno for d in getattr(first, 'decorator_list', [])]), first.col_offset))
+    for ln, col in sorted(set(inserts), reverse=True):
+        lines.insert(ln - 1, ' ' * col + "pass; print('dbg')")
+    return '\n'.join(lines)
+
+
+def insert_noise(file, funcname):
+    return Variant('neutral: no-op statements inserted in %s' % funcname, 'neutral', file, transform=_functools.partial(_insert_noise, funcname))
